@@ -63,12 +63,31 @@ type Engine struct {
 	wrapAtoms map[string]Atom
 	// Wraps: fixed-width arithmetic instructions -> [times evaluated in checking mode, times a wrap-around could not be excluded]
 	Wraps map[ssa.Instruction][2]int
+	// Masks: x & (2^k-1) instructions -> [times evaluated in checking mode, times x <= mask could not be established]
+	Masks map[ssa.Instruction][2]int
 	// AccessHook is called (checking mode) for every read extent on a slice: index+1, slice high bound, or low+N for binary.BigEndian reads.
 	AccessHook func(e *Engine, st *State, in ssa.Instruction, base ssa.Value, extent Lin)
 	// Opaque functions are not evaluated: results unconstrained, memory untouched (client-verified purity).
 	Opaque map[*ssa.Function]bool
 	// WrapLCong: record w ≡ e (mod 2^width) for every wrapped result w of expression e.
 	WrapLCong bool
+	// AssumeNoWrap: functions whose fixed-width arithmetic is assumed not to wrap (a domain assumption stated by the client).
+	AssumeNoWrap  map[*ssa.Function]bool
+	AssumedNoWrap map[ssa.Instruction]int
+	// NarrowCtx: per (instruction, immediate call site) -> [evaluated, lossy] for Wraps and Masks.
+	NarrowCtx map[string]*NarrowRec
+	// AssumeAfterCheck: after an index operation the index is assumed in range (a failed check panics).
+	AssumeAfterCheck bool
+	// ErrDiscipline: generate E-ERR obligations (no callee error is dropped on a success return).
+	ErrDiscipline bool
+	// Defer: ghost atoms holding the pre-conversion value of narrowing instructions (assigned at every execution).
+	Defer map[string]Atom // key: NarrowRec.Key
+	// RootInit is applied to the entry state of the root.
+	RootInit func(st *State)
+	// ConvertHook is called (checking mode) before an integer conversion is evaluated.
+	ConvertHook func(e *Engine, st *State, x *ssa.Convert)
+	// BinOpHook is called (checking mode) before an integer binary operation is evaluated.
+	BinOpHook func(e *Engine, st *State, x *ssa.BinOp)
 	// HooksAlways: CallHook/ExternalHook also fire during fixpoint iteration (for hooks that bind ghost atoms).
 	HooksAlways bool
 	// ExternalHook is called (checking mode) before the model of an external call is applied.
@@ -112,7 +131,7 @@ func NewEngine(pkg *ssa.Package, cg *callgraph.Graph) *Engine {
 	e := &Engine{Pkg: pkg, CG: cg, valAtom: map[ssa.Value]Atom{}, lenAtoms: map[ssa.Value]Atom{}, cellAtom: map[string]Atom{},
 		tupAtom: map[string]Atom{}, temps: map[int]Atom{}, vids: map[ssa.Value]int{}, Obls: map[string]*Obl{}, MaxDepth: 6,
 		callees: map[ssa.CallInstruction][]*ssa.Function{}, MaxSteps: 40000000, Externals: map[string]int{}, Universe: map[*ssa.Function]bool{},
-		ordinals: map[*ssa.Function]map[ssa.Instruction]int{}, objType: map[string]string{}, SpareOnReflectSet: map[string]bool{}, isCell: map[Atom]bool{}, snapAtoms: map[string]Atom{}, Summaries: map[*ssa.Function]*FnSummary{}, RecursionCuts: map[string]int{}, SummarisedRecursive: map[string]int{}, Wraps: map[ssa.Instruction][2]int{}}
+		ordinals: map[*ssa.Function]map[ssa.Instruction]int{}, objType: map[string]string{}, SpareOnReflectSet: map[string]bool{}, isCell: map[Atom]bool{}, snapAtoms: map[string]Atom{}, Summaries: map[*ssa.Function]*FnSummary{}, RecursionCuts: map[string]int{}, SummarisedRecursive: map[string]int{}, Wraps: map[ssa.Instruction][2]int{}, Masks: map[ssa.Instruction][2]int{}, AssumedNoWrap: map[ssa.Instruction]int{}, NarrowCtx: map[string]*NarrowRec{}}
 	if cg != nil {
 		for _, n := range cg.Nodes {
 			for _, ed := range n.Out {
@@ -587,3 +606,65 @@ func (e *Engine) StructFieldLenExpr(st *State, v ssa.Value, idx int) Lin {
 	key := fmt.Sprintf("%s.f%d", e.aggKey(v), idx)
 	return st.Subst(Var(e.cellLen(key)))
 }
+
+// InstrKey identifies an instruction by function, kind and ordinal (never by line).
+func (e *Engine) InstrKey(in ssa.Instruction) string {
+	return fmt.Sprintf("%s/%s#%d", shortFn(in.Parent()), instrKind(in), e.ordinal(in))
+}
+
+// NewGhostUnbounded creates a ghost atom without a static range.
+func (e *Engine) NewGhostUnbounded(name string) Atom { return e.newAtom(name, Range{}) }
+
+// TypeRangeOf is the value range of an integer type (HasHi false for 64-bit types).
+func TypeRangeOf(t types.Type) Range { return typeRange(t) }
+
+// NarrowRec: a narrowing instruction in one calling context (full call string).
+type NarrowRec struct {
+	Key       string // InstrKey @ call string
+	In        ssa.Instruction
+	Ctx       string
+	Call      ssa.CallInstruction // immediate call site (nil in the root frame)
+	Seen, Bad int
+	Mask      int64 // for masks: the smallest mask value seen (0 otherwise)
+}
+
+func (e *Engine) narrowKey(in ssa.Instruction) string { return e.InstrKey(in) + " @ " + e.callString() }
+
+// callString: the call-site sensitive call string of the current frame.
+func (e *Engine) callString() string {
+	var parts []string
+	for _, f := range e.stack {
+		p := shortFn(f.fn)
+		if f.call != nil {
+			p = fmt.Sprintf("call#%d:%s", e.ordinal(f.call), p)
+		}
+		parts = append(parts, p)
+	}
+	return strings.Join(parts, " > ")
+}
+
+func (e *Engine) noteCtx(in ssa.Instruction, fits bool, mask int64) {
+	k := e.narrowKey(in)
+	w := e.NarrowCtx[k]
+	if w == nil {
+		w = &NarrowRec{Key: k, In: in, Ctx: e.callString()}
+		if n := len(e.stack); n > 0 {
+			w.Call = e.stack[n-1].call
+		}
+		e.NarrowCtx[k] = w
+	}
+	w.Seen++
+	if !fits {
+		w.Bad++
+	}
+	if mask > 0 && (w.Mask == 0 || mask < w.Mask) && w.Mask >= 0 {
+		w.Mask = mask
+	}
+	if mask < 0 {
+		w.Mask = -1 // variable-width mask
+	}
+}
+
+// NarrowKeyOf / CallString expose the context keys used by NarrowCtx and Defer.
+func (e *Engine) NarrowKeyOf(in ssa.Instruction) string { return e.narrowKey(in) }
+func (e *Engine) CallString() string                    { return e.callString() }
